@@ -170,15 +170,20 @@ int main(int argc, char** argv) {
     g_stage = g_dir + ".stage";
     ::mkdir(g_stage.c_str(), 0755);
     int ver = 0;
+    // the driver's own record of the directory (valid? version) - used ONLY to stop the settling ticks early; the verdict
+    // is the specification's
+    std::map<std::string, std::pair<bool, int>> disk; std::mutex diskMu; bool dirNow = false;
     // files present at start-up (or no directory at all)
     bool dirAtStart = r.chance(85);
     std::vector<std::string> init;
     evEmit(J().str("e", "SReset").num("scn", scn).num("seed", (long long)seed).boolean("dir", dirAtStart));
+    dirNow = dirAtStart;
     if (dirAtStart) {
       ::mkdir(g_dir.c_str(), 0755);
       for (auto& n : kNames) if (r.chance(45)) {
         Content c = makeContent(r, n, ++ver);
         int fd = ::open(pth(n).c_str(), O_WRONLY | O_CREAT | O_TRUNC, 0644); writeAll(fd, c.text); ::close(fd);
+        disk[n] = {c.kind == "valid", c.ver};
         evEmit(J().str("e", "InitFile").str("n", n).str("k", c.kind == "valid" ? "valid" : "bad").num("v", c.ver).str("kind", c.kind));
       }
     }
@@ -194,6 +199,7 @@ int main(int argc, char** argv) {
     auto svc = Oomd::FsDropInService::create("/sys/fs/cgroup", *root, *engine, g_dir);
     evEmit(J().str("e", "CtorDone"));
 
+    std::set<int> lastActive;
     auto tick = [&] {
       evEmit(J().str("e", "Tick"));
       svc->updateDropIns();
@@ -204,6 +210,9 @@ int main(int argc, char** argv) {
       { std::lock_guard<std::mutex> g(ranMu);
         for (auto& id : ran) { auto p = id.rfind(':'); std::string n = id.substr(0, p); if (n == "base0" || n == "base1" || n == "locked") continue;
           ids.push_back(J::arr({J::quote(n), std::to_string(verOf(id))})); } }
+      lastActive.clear();
+      { std::lock_guard<std::mutex> g(ranMu);
+        for (auto& id : ran) { auto p = id.rfind(':'); std::string n = id.substr(0, p); if (n != "base0" && n != "base1" && n != "locked") lastActive.insert(verOf(id)); } }
       evEmit(J().str("e", "Active").raw("ids", J::arr(ids)));
     };
 
@@ -227,12 +236,14 @@ int main(int argc, char** argv) {
           std::string st = g_stage + "/f";
           int fd = ::open(st.c_str(), O_WRONLY | O_CREAT | O_TRUNC, 0644); writeAll(fd, c.text); ::close(fd);
           evEmit(opJ("put", n, "", &c)); int rc = ::rename(st.c_str(), pth(n).c_str()); evEmit(J().str("e", "FsRet").boolean("done", rc == 0));
+          if (rc == 0) { std::lock_guard<std::mutex> g(diskMu); disk[n] = {c.kind == "valid", c.ver}; }
         } else if (x < 50) {   // truncating write
           Content c = makeContent(o, n, ++v);
           evEmit(opJ(c.text.empty() ? "trunc" : "write", n, "", &c));
           int fd = ::open(pth(n).c_str(), O_WRONLY | O_CREAT | O_TRUNC, 0644);
           if (fd >= 0) { if (!c.text.empty()) writeAll(fd, c.text); ::close(fd); }
           evEmit(J().str("e", "FsRet").boolean("done", fd >= 0));
+          if (fd >= 0) { std::lock_guard<std::mutex> g(diskMu); disk[n] = {c.kind == "valid", c.ver}; }
         } else if (x < 62) {   // write in two parts: a prefix now, the rest by the next operation on this thread
           Content c = makeContent(o, n, ++v);
           Content part{"partial", c.ver, c.text.substr(0, c.text.size() / 2)};
@@ -240,27 +251,32 @@ int main(int argc, char** argv) {
           int fd = ::open(pth(n).c_str(), O_WRONLY | O_CREAT | O_TRUNC, 0644);
           if (fd >= 0) { if (!part.text.empty()) writeAll(fd, part.text); ::close(fd); }
           evEmit(J().str("e", "FsRet").boolean("done", fd >= 0));
+          if (fd >= 0) { std::lock_guard<std::mutex> g(diskMu); disk[n] = {false, part.ver}; }
           if (o.chance(70)) std::this_thread::sleep_for(std::chrono::microseconds(o.upto(3000)));
           if (c.text.size() > part.text.size()) {
             evEmit(opJ("append", n, "", &c));
             fd = ::open(pth(n).c_str(), O_WRONLY | O_APPEND);
             if (fd >= 0) { writeAll(fd, c.text.substr(part.text.size())); ::close(fd); }
             evEmit(J().str("e", "FsRet").boolean("done", fd >= 0));
+            if (fd >= 0) { std::lock_guard<std::mutex> g(diskMu); disk[n] = {c.kind == "valid", c.ver}; }
           }
         } else if (x < 75) {   // delete
           evEmit(opJ("delete", n, "", nullptr)); int rc = ::unlink(pth(n).c_str()); evEmit(J().str("e", "FsRet").boolean("done", rc == 0));
+          if (rc == 0) { std::lock_guard<std::mutex> g(diskMu); disk.erase(n); }
         } else if (x < 88) {   // rename inside the directory
           std::string n2 = o.pick(kNames);
           if (n2 == n) continue;
           evEmit(opJ("rename", n, n2, nullptr)); int rc = ::rename(pth(n).c_str(), pth(n2).c_str()); evEmit(J().str("e", "FsRet").boolean("done", rc == 0));
+          if (rc == 0) { std::lock_guard<std::mutex> g(diskMu); disk[n2] = disk[n]; disk.erase(n); }
         } else if (x < 94) {   // delete everything and the directory
-          for (auto& f : kNames) { evEmit(opJ("delete", f, "", nullptr)); int rc = ::unlink(pth(f).c_str()); evEmit(J().str("e", "FsRet").boolean("done", rc == 0)); }
+          for (auto& f : kNames) { evEmit(opJ("delete", f, "", nullptr)); int rc = ::unlink(pth(f).c_str()); evEmit(J().str("e", "FsRet").boolean("done", rc == 0));
+                                   if (rc == 0) { std::lock_guard<std::mutex> g(diskMu); disk.erase(f); } }
           evEmit(opJ("rmdir", "", "", nullptr)); int rc = ::rmdir(g_dir.c_str()); evEmit(J().str("e", "FsRet").boolean("done", rc == 0));
-          if (rc == 0) dirThere = false;
+          if (rc == 0) { dirThere = false; std::lock_guard<std::mutex> g(diskMu); dirNow = false; }
         } else {               // (re)create the directory
           if (o.chance(35)) g_failAddWatch.store(1 + o.upto(2));   // the re-registration of the new directory fails once or twice
           evEmit(opJ("mkdir", "", "", nullptr)); int rc = ::mkdir(g_dir.c_str(), 0755); evEmit(J().str("e", "FsRet").boolean("done", rc == 0));
-          if (rc == 0) dirThere = true;
+          if (rc == 0) { dirThere = true; std::lock_guard<std::mutex> g(diskMu); dirNow = true; }
         }
       }
       opsDone.store(true);
@@ -280,7 +296,16 @@ int main(int argc, char** argv) {
       quietFor = g_hookCount.load() == before ? quietFor + 1 : 0;
     }
     evEmit(J().str("e", "Quiet"));
-    for (int i = 0; i < 3; i++) { tick(); std::this_thread::sleep_for(std::chrono::milliseconds(15)); }
+    // at least three ticks; under a loaded machine the watcher may lag behind the quiet-detection above, so ticking goes
+    // on (up to 60 ticks, ~1.5 s) until the engine runs what the driver's record expects - if it never does, the
+    // specification rejects the Settle event below
+    std::set<int> want;
+    if (dirNow) for (auto& [n, c] : disk) if (!n.empty() && n[0] != '.' && c.first) want.insert(c.second);
+    for (int i = 0; i < 60; i++) {
+      tick();
+      if (i >= 2 && lastActive == want) break;
+      std::this_thread::sleep_for(std::chrono::milliseconds(i < 3 ? 15 : 25));
+    }
     // what is on disk now
     {
       std::vector<std::string> names;
